@@ -1,0 +1,233 @@
+//! Link check over the emitted story: every path-carrying token must address existing
+//! content and every variable token must name something declared, so that an unknown name
+//! is a compile error instead of a story that breaks when play reaches it.
+
+use std::collections::{BTreeMap, BTreeSet, HashMap};
+
+use serde_json::Value;
+
+use crate::error::CompilerError;
+
+struct Entry<'a> {
+    value: &'a Value,
+    parent: Option<usize>,
+    /// top-level flow this content belongs to (first component of its path)
+    flow: String,
+}
+
+#[derive(Default)]
+struct Index<'a> {
+    entries: Vec<Entry<'a>>,
+    by_position: HashMap<(usize, usize), usize>,
+    by_name: HashMap<(usize, String), usize>,
+    content_len: Vec<usize>,
+}
+
+impl<'a> Index<'a> {
+    fn add(&mut self, value: &'a Value, parent: Option<usize>, flow: String, depth: usize) -> usize {
+        let id = self.entries.len();
+        self.entries.push(Entry {
+            value,
+            parent,
+            flow: flow.clone(),
+        });
+        self.content_len.push(0);
+
+        let Value::Array(items) = value else {
+            return id;
+        };
+        let content_len = items.len().saturating_sub(1);
+        self.content_len[id] = content_len;
+
+        for (position, item) in items.iter().take(content_len).enumerate() {
+            let name = item
+                .as_array()
+                .and_then(|array| array.last())
+                .and_then(|last| last.get("#n"))
+                .and_then(Value::as_str);
+            let child_flow = if depth == 0 {
+                name.map(str::to_owned)
+                    .unwrap_or_else(|| position.to_string())
+            } else {
+                flow.clone()
+            };
+            let child = self.add(item, Some(id), child_flow, depth + 1);
+            self.by_position.insert((id, position), child);
+            if let Some(name) = name {
+                self.by_name.insert((id, name.to_owned()), child);
+            }
+        }
+
+        if let Some(Value::Object(named)) = items.last() {
+            for (name, item) in named {
+                if name == "#f" || name == "#n" || !item.is_array() {
+                    continue;
+                }
+                let child_flow = if depth == 0 { name.clone() } else { flow.clone() };
+                let child = self.add(item, Some(id), child_flow, depth + 1);
+                self.by_name.insert((id, name.clone()), child);
+            }
+        }
+
+        id
+    }
+
+    /// `Ok(None)` is the position just past the end of a container, which a divert may target.
+    fn resolve(&self, from: usize, path: &str, allow_end: bool) -> Result<Option<usize>, ()> {
+        let (mut current, components): (usize, Vec<&str>) = match path.strip_prefix('.') {
+            Some(relative) => {
+                let mut components: Vec<&str> = relative.split('.').collect();
+                let start = if self.entries[from].value.is_array() {
+                    from
+                } else {
+                    if components.first() != Some(&"^") {
+                        return Err(());
+                    }
+                    components.remove(0);
+                    self.entries[from].parent.ok_or(())?
+                };
+                (start, components)
+            }
+            None => (0, path.split('.').collect()),
+        };
+
+        let last = components.len().saturating_sub(1);
+        for (position, component) in components.iter().enumerate() {
+            if component.is_empty() || !self.entries[current].value.is_array() {
+                return Err(());
+            }
+            if *component == "^" {
+                current = self.entries[current].parent.ok_or(())?;
+            } else if let Some(child) = component
+                .parse::<usize>()
+                .ok()
+                .and_then(|index| self.by_position.get(&(current, index)))
+            {
+                current = *child;
+            } else if let Some(child) = self.by_name.get(&(current, (*component).to_owned())) {
+                current = *child;
+            } else if allow_end
+                && position == last
+                && component.parse::<usize>().ok() == Some(self.content_len[current])
+            {
+                return Ok(None);
+            } else {
+                return Err(());
+            }
+        }
+
+        Ok(Some(current))
+    }
+}
+
+pub(crate) fn check(document: &Value, external_functions: &[String]) -> Result<(), CompilerError> {
+    let Some(root) = document.get("root").filter(|root| root.is_array()) else {
+        return Ok(());
+    };
+
+    let mut index = Index::default();
+    index.add(root, None, String::new(), 0);
+
+    let mut variables: BTreeSet<&str> = BTreeSet::new();
+    let mut list_names: BTreeSet<String> = BTreeSet::new();
+    if let Some(Value::Object(lists)) = document.get("listDefs") {
+        for (list, items) in lists {
+            list_names.insert(list.clone());
+            for item in items.as_object().into_iter().flat_map(|items| items.keys()) {
+                list_names.insert(item.clone());
+                list_names.insert(format!("{list}.{item}"));
+            }
+        }
+    }
+
+    let mut temporaries: BTreeMap<&str, BTreeSet<&str>> = BTreeMap::new();
+    for entry in &index.entries {
+        let Value::Object(token) = entry.value else {
+            continue;
+        };
+        if let Some(name) = token.get("VAR=").and_then(Value::as_str)
+            && entry.flow == "global decl"
+        {
+            variables.insert(name);
+        }
+        if let Some(name) = token.get("temp=").and_then(Value::as_str)
+            && !token.contains_key("re")
+        {
+            temporaries.entry(&entry.flow).or_default().insert(name);
+        }
+    }
+
+    let unresolved = |what: &str, name: &str| {
+        Err(CompilerError::invalid_source(format!(
+            "Unresolved {what}: {name}"
+        )))
+    };
+
+    for (id, entry) in index.entries.iter().enumerate() {
+        let Value::Object(token) = entry.value else {
+            continue;
+        };
+        let is_variable_known = |name: &str| {
+            variables.contains(name)
+                || temporaries
+                    .get(entry.flow.as_str())
+                    .is_some_and(|names| names.contains(name))
+        };
+        let through_variable = token.get("var").and_then(Value::as_bool) == Some(true);
+
+        for key in ["->", "->t->", "f()", "*", "CNT?", "^->"] {
+            let Some(path) = token.get(key).and_then(Value::as_str) else {
+                continue;
+            };
+            if through_variable && matches!(key, "->" | "->t->" | "f()") {
+                if !is_variable_known(path) {
+                    return unresolved("divert target variable", path);
+                }
+                continue;
+            }
+            if key == "->" && (path == "END" || path == "DONE") {
+                continue;
+            }
+            match index.resolve(id, path, matches!(key, "->" | "^->")) {
+                Ok(Some(target)) => {
+                    if matches!(key, "->t->" | "f()" | "*" | "CNT?")
+                        && !index.entries[target].value.is_array()
+                    {
+                        return unresolved("target", path);
+                    }
+                }
+                Ok(None) => {}
+                Err(()) => {
+                    let what = match key {
+                        "f()" => "function",
+                        "CNT?" => "read count target",
+                        _ => "divert target",
+                    };
+                    return unresolved(what, path);
+                }
+            }
+        }
+
+        if let Some(name) = token.get("x()").and_then(Value::as_str)
+            && !external_functions.iter().any(|external| external == name)
+        {
+            return unresolved("function", name);
+        }
+
+        for key in ["VAR?", "VAR=", "temp="] {
+            let Some(name) = token.get(key).and_then(Value::as_str) else {
+                continue;
+            };
+            if (key == "temp=" && !token.contains_key("re"))
+                || (key == "VAR=" && entry.flow == "global decl")
+            {
+                continue;
+            }
+            if !is_variable_known(name) && !(key == "VAR?" && list_names.contains(name)) {
+                return unresolved("variable", name);
+            }
+        }
+    }
+
+    Ok(())
+}
